@@ -343,6 +343,7 @@ def parse_number(t):
 
 
 _PARSER = None
+_FAST = None
 
 
 def parser():
@@ -352,10 +353,29 @@ def parser():
     return _PARSER
 
 
-def parse(text):
+def fast_parser():
+    global _FAST
+    if _FAST is None:
+        _FAST = Lark(GRAMMAR, parser='lalr', maybe_placeholders=False)
+    return _FAST
+
+
+def parse(text, check_both=False):
+    """LALR first (fast); whatever LALR cannot parse is given to the Earley parser, which alone decides
+    that a text is not in the accepted subset"""
+    fast = None
+    try:
+        fast = _T().transform(fast_parser().parse(text))
+        if not check_both:
+            return fast
+    except LarkError:
+        pass
     try:
         tree = parser().parse(text)
-        return _T().transform(tree)
+        slow = _T().transform(tree)
+        if check_both and fast is not None and fast != slow:
+            raise VParseError('LALR and Earley readings differ')
+        return slow
     except LarkError as e:
         msg = str(e).splitlines()
         raise VParseError(' '.join(msg[:3])[:300])
